@@ -74,6 +74,9 @@ def run(ctx):
     scope = [f for f in closure if f.module.name.startswith("hed.validator")]
     ctx.floor("R1.3", "validator functions in closure", len(scope), 45)
     check_no_dropped_issues(ctx, "R1.3", scope)
+    ctx.rule("R1.5", "every string-level check runs on every string (no early exit skips the delimiter / parenthesis checks)")
+    from rules.c02 import string_checks_always_run
+    string_checks_always_run(ctx, "R1.5")
     ctx.rule("R1.4", "the delimiter scan decides on the blank-stripped form of the accumulated text (empty-delimiter rule)")
     from rules.c04 import delimiter_scan_rule
     delimiter_scan_rule(ctx, "R1.4")
